@@ -29,6 +29,8 @@ def monitor(sub, c, o, out, ex):
         second = out["obs"].get("%d:second" % ex["index"])
         END = ("END",)
         mode = c["consume"]
+        if mode == "callback_end_raises":
+            mode = "callback"
         if mode.startswith("callback"):
             nend = sum(1 for x in got if x == END or x == list(END))
             items = [canon(x) for x in got if not (x == END or x == list(END))]
@@ -121,7 +123,7 @@ def main(tier, seed, replay=None):
         for k in cuts:
             r = random.Random(sd * 1009 + k)
             chooser = S.ReplayChooser(schedule) if schedule is not None else (S.RandomChooser(r) if k % 3 else S.PCTChooser(r, 3, 400))
-            out = CC.run_program(prog, chooser, sd, cut_w2i=k, io_kind=io_kind)
+            out = CC.run_program(prog, chooser, sd, cut_w2i=k, io_kind=io_kind, line_budget=(replay["example"].get("line_budget", 0) if replay else 0))
             nruns += 1
             cuts_done += 1
             exb = {"prog": prog, "schedule": out["schedule"], "seed": sd, "cut": k, "io_kind": io_kind, "result": out["result"]}
@@ -155,6 +157,38 @@ def main(tier, seed, replay=None):
             errs = [e for e in out["thread_errors"] if "user" in e or "controller" in e]
             if errs:
                 sub.fail("loss:thread-died:" + errs[0][:50], ex)
+    # an obligation broke but no failing input yet: one targeted preemption at every line of the changed functions, for a
+    # few cut points and callback / receive programs (the windows that have no synchronisation point inside)
+    if ck.broken and not ck.failures and not replay:
+        from evh.common import changed_lines
+
+        lines = changed_lines(ck.build_info)
+        ck.cov["targeted_lines"] = len(lines)
+        tprogs = [
+            [{"kind": "produce", "tag": "t0", "items": [0, 1], "consume": "callback"}],
+            [{"kind": "produce", "tag": "t0", "items": [0, 1, 2], "consume": "callback_mid"}],
+            [{"kind": "produce", "tag": "t0", "items": [0], "consume": "two_receivers"}],
+        ]
+        for where in lines:
+            for prog in tprogs:
+                for k in (0, 9, 30):
+                    for nth in (1, 2):
+                        if ck.failures:
+                            break
+                        sd = rng.getrandbits(30)
+                        out = CC.run_program(prog, S.DemoteAtLine(where, nth, random.Random(sd)), sd, line_budget=10 ** 6, cut_w2i=k, io_kind="popen")
+                        nruns += 1
+                        ck.count("targeted_runs")
+                        if out["result"] != "stop":
+                            continue
+                        exb = {"prog": prog, "schedule": out["schedule"], "seed": sd, "cut": k, "io_kind": "popen", "result": out["result"], "line_budget": 10 ** 6, "demote_at": where}
+                        for i, c in enumerate(prog):
+                            o = out["obs"].get(i)
+                            if o is not None and "id" in o:
+                                monitor(sub, c, o, out, {**exb, "index": i, "obs": CC.compact({str(a): b for a, b in out["obs"].items()}), "final": out["final"]})
+                        fin = out["final"]
+                        if out["w2i_total"] > k and not fin.get("hasreceiver") and (fin.get("channels_left") or fin.get("callbacks_left")):
+                            sub.fail("after-loss:channel-tables-not-empty", {**exb, "final": fin})
     try:
         from props import chan_model
 
